@@ -155,7 +155,8 @@ def hPhone : Handler
 
 /-! merged extractor / parser (RTV.Model.Merged)
   mg.ext <src> <inputs s:l:tag,..|..> <unspecific tags> <ambiguous tags> <ops tag:p:k,tag:e:m,..> <calendar tags>
-        -> s:l:tag:text;...|chainNoCrossing|disjoint
+        -> s:l:tag:text;...|chainNoCrossing|disjoint|extClear   (the two hypotheses of `mergedExtract_disjoint_monitored`
+           and its conclusion, on this call)
   mg.pp  <kind> <ki> <kl> <kbegin> <around> <ai> <al> <isAfter> <hasValue> <reset> <start> <len> <text> <rstart> <rlen> <rtext>
         -> pushed start:len:text|mod|popped start:len:text      (pop applied to the given inner result r)
   mg.zh  <dst s:l:tag,..> <src s:l:tag,..> <includes v:d,..>    -> s:l:tag;...  -/
@@ -174,7 +175,8 @@ def hMgExt : Handler
       | _ => none
     let opf := fun t => (opl.filter fun x => x.1 == t).map (·.2)
     let r := mergedExtract s ins (fun e => us.contains e.tag) (fun e => am.contains e.tag) opf (fun e => ca.contains e.tag)
-    s!"{showERs r}|{showBool (decide (ChainNoCrossing [] ins))}|{showBool (decide (r.Pairwise Disjoint))}"
+    let xc := extClearB s opf (beforeMods ins (fun e => us.contains e.tag) (fun e => am.contains e.tag))
+    s!"{showERs r}|{showBool (decide (ChainNoCrossing [] ins))}|{showBool (decide (r.Pairwise Disjoint))}|{showBool xc}"
   | _ => "bad-op"
 
 def parseKind (k : String) : Kind :=
